@@ -68,8 +68,15 @@ def do_OP_2SWAP(stack: Any) -> None:
     stack.append(stack.pop(-4))
 
 
+def _cast_to_bool(v: Any) -> bool:
+    # script truthiness: false iff every byte is zero, allowing a final 0x80 (negative zero)
+    if isinstance(v, (bytes, bytearray)):
+        return any(v[:-1]) or (len(v) > 0 and v[-1] not in (0, 0x80))
+    return bool(v)
+
+
 def do_OP_IFDUP(stack: Any) -> None:
-    if stack[-1]:
+    if _cast_to_bool(stack[-1]):
         stack.append(stack[-1])
 
 
